@@ -357,3 +357,10 @@ def run(ctx, eng):
                                  'FLOW.priority-handler', 'PAIR.reassembly'},
                'priority fields arrive as sent')
     cm.include(ctx, eng, 'C26', {'FLOW.ping'}, 'pings are answered')
+    cm.include(ctx, eng, 'C16', {'FLOW.track', 'ARITH.length',
+                                 'ORD.init-length'},
+               'a body sent with the matching content-length is accepted: '
+               'the receiver counts payload octets only')
+    cm.include(ctx, eng, 'C20', {'ORD.decode-first'},
+               'every header block the peer encoded reaches the decoder, '
+               'or the two compression contexts part')
